@@ -391,7 +391,7 @@ def r02_10(ctx):
             if e:
                 dot_targets.append(e[0])
                 dot_tests.add(b)
-    ctx.floor("R02.10", "tests for '.' in the validating number skipper", len(dot_tests), 3)
+    ctx.floor("R02.10", "tests for '.' in the validating number skipper", len(dot_tests), 1)
     # the fraction flag: bool locals assigned `true` somewhere and tested right after a dot edge
     setters = collections.defaultdict(set)
     for b, i, s in fn.assigns():
